@@ -11,7 +11,6 @@ SH_ASSUME = [
 TABLE = {}
 
 NOT_APPLICABLE = {
-    'C10': 'quantifies over crash points between file-system mutations and fault sequences of whole configure/regenerate runs; a function contract relates one call\'s pre-state to its post-state and has no notion of "killed here" (DESIGN.md section 6)',
 }
 
 NJ_ASSUME = ['specs/ninja.py (ninja lexing of values and paths) is written from the ninja manual; no ninja binary is '
@@ -272,4 +271,17 @@ TABLE['C06'] = {
     'level_text': 'Bounded exploration only (labelled): two generated projects, both backends. Nothing is proved for this property.',
     'level_note': 'bounded stand-in only; no relational contract was built (DESIGN.md 8.3).',
     'technique': 'bounded runtime contracts on the real pipeline, GNU make as the reader of the Make side (stand-in; no deductive obligations)',
+}
+
+
+TABLE['C10'] = {
+    'modules': ['contracts.faults'],
+    'level': 'exploration',
+    'explanation': 'the property quantifies over crash points between file-system mutations of a whole run: a function contract relates the pre-state of one call to its post-state and has no notion of "killed here", so nothing is proved. The check is bounded fault injection on the real driver, without any change to the repository: the generated regeneration rule is run by GNU make with a launcher that patches open-for-write / close / os.utime / remove / makedirs / rename / replace for paths in the build directory and, at the k-th such event, kills the process (buffered data lost) or raises OSError -- for every k of an uninterrupted run (25 events), two kinds of edit (build.bfg changed; a new file matching find_files) and both fault modes; the next, undisturbed make must then either leave Makefile, .bfg_find_deps and .bfg_find_cache equal to a fresh configure of the edited project or exit non-zero. A build script that raises must leave the previous Makefile byte-identical and fail visibly.',
+    'assumptions': ['a kill is modelled by os._exit at a patched call: files are absent, empty or complete, never partially flushed'],
+    'trusted_base': [],
+    'not_covered': ['configure (as opposed to regenerate) interrupted', 'pkg-config / immediate files as outputs of the regeneration step (they are rewritten, but only the three files above are compared)', 'the ninja backend', 'two faults in a row'],
+    'level_text': 'Bounded exploration only (labelled): 2 x 2 x 25 injected faults + 1 failing script. Nothing is proved for this property.',
+    'level_note': 'bounded fault injection; the contract technique does not apply to crash points (DESIGN.md section 6 and 8.3). One genuine defect found and repaired.',
+    'technique': 'bounded fault injection on the real process (stand-in; no deductive obligations)',
 }
